@@ -32,7 +32,9 @@ Definition len_ok (opmax opmin : scmp) (mx : option Z) (mn n : Z) : bool :=
 Inductive obj :=
 | OInt (z : Z) | OFloat (bits : Z) | OBytes (bs : list Z) | OText (cps : list Z) | OBool (b : bool) | ONone
 | OList (l : list obj) | OTuple (l : list obj) | OSet (l : list obj) | OFset (l : list obj)
-| ODict (ks vs : list obj).
+| ODict (ks vs : list obj)
+| OPending (k : nat).       (* the Deferred placeholder of the k-th enclosing tuple that is still being received; it is
+                               replaced by that tuple when the tuple completes (a cycle through an immutable container) *)
 
 (* ---- constraint trees.  CInt (Some (-1)) is the 32-bit IntegerConstraint; COpt is an Optional/Shared
    found BELOW the argument level (at the argument level it is unwrapped, see argspec). *)
@@ -161,7 +163,9 @@ Inductive wobj :=
 | WFloat (bits : Z)
 | WStr (vocab : bool) (size : Z) (bs : list Z)   (* STRING (size = length) or VOCAB (size = index) token *)
 | WOpen (ot : otype) (kids : list wobj)      (* OPEN <opentype> kids CLOSE *)
-| WRef (o : obj).                            (* OPEN reference n CLOSE, n naming an earlier, complete object o *)
+| WRef (o : obj).                            (* OPEN reference n CLOSE, n naming an earlier, complete object o -- or, with
+                                                o = OPending k, the k-th enclosing tuple, which is still open: the receiver's
+                                                table holds a Deferred for it and checkObject is applied to that Deferred *)
 
 (* the child Unslicer pushed for an OPEN and what setConstraint left in it.  An inner None = attribute left unset *)
 Inductive child :=
@@ -337,6 +341,7 @@ Fixpoint slice (o : obj) : wobj :=
   | OSet l => WOpen OtSet (map slice l)
   | OFset l => WOpen OtFset (map slice l)
   | ODict ks vs => WOpen OtDict (interleave (map slice ks) (map slice vs))
+  | OPending k => WRef (OPending k)
   end.
 
 (* ---- method schemas *)
@@ -496,6 +501,7 @@ Fixpoint owf (o : obj) : bool :=
   match o with
   | OList l | OTuple l | OSet l | OFset l => forallb owf l
   | ODict ks vs => (List.length ks =? List.length vs)%nat && forallb owf ks && forallb owf vs
+  | OPending _ => false                      (* cyclic values are outside the honest-sender theorems *)
   | _ => true
   end.
 
